@@ -624,6 +624,51 @@ def _fold_with_objs(folder, e, module, cls, env):
                 if cls2 is not None:
                     return self.class_const(cls2, nm)
                 raise NotConst("attribute %s unset" % nm)
+            # a method of the object under evaluation, applied to folded
+            # arguments: its body is evaluated on the same object
+            if isinstance(e2.func, ast.Attribute) and isinstance(
+                    e2.func.value, ast.Name) and isinstance(
+                        env2.get(e2.func.value.id), ObjEnv) and \
+                    cls2 is not None and e2.func.attr in getattr(
+                        cls2, "methods", {}) and not any(
+                            k.arg is None for k in e2.keywords):
+                g = cls2.methods[e2.func.attr]
+                depth = getattr(folder, "_method_depth", 0)
+                if depth < 4 and g.self_name:
+                    args = []
+                    for a in e2.args:
+                        if isinstance(a, ast.Starred):
+                            args.extend(list(self.fold(
+                                a.value, module2, cls2, env2)))
+                        else:
+                            args.append(self.fold(a, module2, cls2, env2))
+                    kw = {k.arg: self.fold(k.value, module2, cls2, env2)
+                          for k in e2.keywords}
+                    params = list(g.call_params)
+                    if len(args) <= len(params) and set(kw) <= set(params):
+                        e3 = dict(zip(params, args))
+                        e3.update(kw)
+                        ok = True
+                        for p_ in params:
+                            if p_ not in e3:
+                                d = g.defaults.get(p_)
+                                if d is None:
+                                    ok = False
+                                    break
+                                e3[p_] = self.fold(d, module2, cls2, {})
+                        if ok:
+                            e3[g.self_name] = env2[e2.func.value.id]
+                            body = [st for st in g.node.body if not (
+                                isinstance(st, ast.Expr) and isinstance(
+                                    st.value, ast.Constant))]
+                            folder._method_depth = depth + 1
+                            try:
+                                exec_block(folder, body, e3, module2, cls2)
+                            except _Return as r:
+                                return r.value
+                            finally:
+                                folder._method_depth = depth
+                            return None
             return Folder._call(self, e2, module2, cls2, env2)
     sub = Sub(folder.model)
     sub._cache = folder._cache
